@@ -194,6 +194,42 @@ fn check_history(ctx: &mut Ctx, rep: &mut Report, drv: &mut Driver, ops: &[Op], 
 			}
 		}
 	}
+	// copies: `clone()`, and `clone_from` onto a name that held other attributes (the name of the
+	// previous history), are the name — same enumeration, same lookups, equal, and still an
+	// insertion-ordered map under further edits
+	if let Some((pdn, _)) = prev {
+		let c1 = dn.clone();
+		let mut c2 = pdn.clone();
+		c2.clone_from(&dn);
+		for (what, c) in [("clone()", &c1), ("clone_from() onto another name", &c2)] {
+			let same_iter = c.iter().map(|(t, v)| (t.clone(), v.clone())).collect::<Vec<_>>() == dn.iter().map(|(t, v)| (t.clone(), v.clone())).collect::<Vec<_>>();
+			let mut types: Vec<DnType> = pdn.iter().map(|(t, _)| t.clone()).collect();
+			types.extend(dn.iter().map(|(t, _)| t.clone()));
+			let same_get = types.iter().all(|t| c.get(t) == dn.get(t));
+			let mut bad: Option<String> = None;
+			if !same_iter || !same_get || *c != dn || dn != *c {
+				bad = Some(format!("enumeration equal: {}, lookups equal: {}, == : {}", same_iter, same_get, *c == dn));
+			}
+			// one more edit on the copy and on the original: remove a type only the overwritten name
+			// had, then push it
+			if bad.is_none() {
+				if let Some(t) = pdn.iter().map(|(t, _)| t.clone()).find(|t| dn.get(t).is_none()) {
+					let (mut x, mut y) = (c.clone(), dn.clone());
+					let (rx, ry) = (x.remove(t.clone()), y.remove(t.clone()));
+					x.push(t.clone(), "again");
+					y.push(t.clone(), "again");
+					let ex: Vec<_> = x.iter().map(|(t, v)| (t.clone(), v.clone())).collect();
+					let ey: Vec<_> = y.iter().map(|(t, v)| (t.clone(), v.clone())).collect();
+					if rx != ry || ex != ey || x != y {
+						bad = Some(format!("after remove + push of a type the overwritten name had: remove returned {} / {}, enumerations equal: {}", rx, ry, ex == ey));
+					}
+				}
+			}
+			if let Some(b) = bad {
+				rep.violate("C20:copies", "a copy of a name is not the name", format!("history: {}\ncopy made by {}: {}", line, what, b));
+			}
+		}
+	}
 	// equality of names = equality of enumerations
 	let iter_txt = tagged("iter", &expect_iter);
 	if let Some((pdn, piter)) = prev {
